@@ -1,6 +1,6 @@
 (* Extraction for the C03 correspondence driver (ExtrOcamlBasic only, no Extract Constant). *)
 From Coq Require Import Extraction ExtrOcamlBasic NArith ZArith List.
-From AHK Require Import Lib.Res Lib.ByteStr Model.Tlv Model.Sym Model.Setup.
+From AHK Require Import Lib.Res Lib.ByteStr Model.Tlv Model.Sym Model.Setup Model.SetupFrames.
 Separate Extraction Z.of_N Z.to_N N.of_nat N.to_nat
   atom_eqb msg_eqb mlen lit as_bytes bytes_eqb s_dh srp_kc srp_ks
-  ps1_m1 ps1_on_m2 ps2_start ps2_on_m4 ps2_on_m6 ps_run sacc_m2 sacc_m4 sacc_m6 ps_exchange utf8_ok norm_salt.
+  ps1_m1 ps1_on_m2 ps2_start ps2_on_m4 ps2_on_m6 ps_run sacc_m2 sacc_m4 sacc_m6 ps_exchange utf8_ok norm_salt bf_reply bf_logical.
